@@ -355,6 +355,17 @@ func generate(r *hxlib.Run, emit func(hxlib.Case)) {
 			"unz " + hxList([]string{"d/", "d/f", "../x"}), "unz " + hxList([]string{"d/", "d/f", "g"}), "unz " + hxList([]string{"/abs"})}
 	})
 
+	// the database directory removed / replaced by a file / changed while the storage is open, prefixes resolving to the root
+	emitCase(r, emit, "fst", "w/db", "plain", "", false, "corpus", func(g *gctx) []string {
+		g.hostile = true
+		var ops []string
+		for _, st := range []string{"rmroot", "rootfile", "rmd", "dfile", "extra", "bad", "empty"} {
+			ops = append(ops, "fss "+st, "qry -", "qry "+hx("."), "qry "+hx("../db"), "qry "+hx("../db/"), "qry "+hx("d"), "qry "+hx("d/"), "qry "+hx("d/e"),
+				"qry "+hx("../db-other"), "get "+hx("a"), "get "+hx("d/b"), "put "+hx("n/m"), "del "+hx("d/b"), "qry "+hx("x/y"))
+		}
+		return ops
+	})
+
 	// histories on one DirStructure tree (seeded C18-r2-2: a child registered under an escaping name serves a later in-scope request)
 	emitCase(r, emit, "dsh", "w/a/root", "plain", "", false, "corpus", func(g *gctx) []string {
 		g.hostile = true
@@ -402,6 +413,17 @@ func generate(r *hxlib.Run, emit func(hxlib.Case)) {
 							name, cls = "../"+g.rootName+"/"+name, "existing-reenter"
 							g.hostile = true
 						}
+					}
+					if rng.Intn(3) == 0 {
+						// a name that resolves to the root itself
+						name, cls = pick(rng, []string{"", ".", "./", "../" + g.rootName, "../" + g.rootName + "/", "d/..", "d/../", "x/y/../..", "../" + g.rootName + "/."}), "root-itself"
+						g.hostile = true
+					}
+					if i == 0 && rng.Intn(2) == 0 || rng.Intn(8) == 0 {
+						// the file system below the root changes behind the back of the open database
+						st := pick(rng, []string{"rmroot", "rmroot", "rootfile", "rootfile", "rmd", "dfile", "extra", "bad", "empty", "plain"})
+						ops = append(ops, "fss "+st)
+						count("fss", st)
 					}
 					ops = append(ops, op+" "+hx(name))
 					count(op, cls)
